@@ -314,6 +314,164 @@ _pixman_internal_only_get_implementation (void)
 
 #ifdef PIXMAN_VERIF
 pixman_verif_sink_t _pixman_verif_sink;
+
+/*
+ * File sink for tracing programs that were not written for it (the
+ * repository's own tests): enabled by the environment variable
+ * PIXMAN_VERIF_TRACE=<file>.  Events are written by the thread that
+ * installed the sink only (the first one to draw).
+ */
+static FILE *verif_file;
+static long verif_left;
+static const void *verif_funcs[4096];
+static int verif_n_funcs;
+static const void *verif_imps[16];
+static int verif_n_imps;
+
+static int
+verif_func_id (const void *f, int add)
+{
+    int i;
+
+    for (i = 0; i < verif_n_funcs; i++)
+    {
+	if (verif_funcs[i] == f)
+	    return i + 1;
+    }
+    if (add && verif_n_funcs < 4096)
+    {
+	verif_funcs[verif_n_funcs++] = f;
+	return verif_n_funcs;
+    }
+    return 0;
+}
+
+static int
+verif_imp_id (const void *p)
+{
+    int i;
+
+    for (i = 0; i < verif_n_imps; i++)
+    {
+	if (verif_imps[i] == p)
+	    return i + 1;
+    }
+    return 0;
+}
+
+static void
+verif_flags (FILE *o, const char *k, uint32_t fl)
+{
+    int i, first = 1;
+
+    fprintf (o, ",\"%s\":[", k);
+    for (i = 0; i < 32; i++)
+    {
+	if (fl & (1u << i))
+	{
+	    fprintf (o, first ? "%d" : ",%d", i);
+	    first = 0;
+	}
+    }
+    fputc (']', o);
+}
+
+#define VERIF_W2(x) (unsigned)((uint32_t)(x) >> 16), (unsigned)((uint32_t)(x) & 0xffff)
+#define VERIF_P3(p) (unsigned)(((uintptr_t)(p) >> 32) & 0xffff), (unsigned)(((uintptr_t)(p) >> 16) & 0xffff), (unsigned)((uintptr_t)(p) & 0xffff)
+
+static void
+verif_dump_tables (const pixman_implementation_t *top)
+{
+    const pixman_implementation_t *imp;
+    int first_imp = 1;
+
+    fprintf (verif_file, "{\"e\":\"Reset\",\"scenario\":\"file-sink\"}\n");
+    fprintf (verif_file, "{\"e\":\"Tables\",\"any_op\":%d,\"any_fmt\":[%u,%u],\"imps\":[",
+	     (int)PIXMAN_OP_any, VERIF_W2 (PIXMAN_any));
+    for (imp = top; imp; imp = imp->fallback)
+    {
+	const pixman_fast_path_t *fp;
+	int first = 1;
+
+	if (verif_n_imps < 16)
+	    verif_imps[verif_n_imps++] = imp;
+	fprintf (verif_file, "%s[", first_imp ? "" : ",");
+	first_imp = 0;
+	for (fp = imp->fast_paths; fp->op != PIXMAN_OP_NONE; fp++)
+	{
+	    fprintf (verif_file, "%s{\"op\":%d,\"sf\":[%u,%u],\"mf\":[%u,%u],\"df\":[%u,%u],\"func\":%d",
+		     first ? "" : ",", (int)fp->op, VERIF_W2 (fp->src_format), VERIF_W2 (fp->mask_format),
+		     VERIF_W2 (fp->dest_format), verif_func_id ((const void *)fp->func, 1));
+	    verif_flags (verif_file, "sfl", fp->src_flags);
+	    verif_flags (verif_file, "mfl", fp->mask_flags);
+	    verif_flags (verif_file, "dfl", fp->dest_flags);
+	    fputc ('}', verif_file);
+	    first = 0;
+	}
+	fputc (']', verif_file);
+    }
+    fprintf (verif_file, "]}\n");
+}
+
+static void
+verif_file_sink (const char *event, const void *data)
+{
+    static int tables_done;
+
+    if (!verif_file || verif_left <= 0)
+	return;
+
+    if (event[0] == 'L' /* Lookup */)
+    {
+	const pixman_verif_lookup_t *e = data;
+
+	if (!tables_done)
+	{
+	    verif_dump_tables (e->toplevel);
+	    tables_done = 1;
+	}
+	verif_left--;
+	fprintf (verif_file, "{\"e\":\"Lookup\",\"tid\":0,\"cache\":[%u,%u,%u],\"hit\":%d,\"imp\":%d,\"func\":%d,\"op\":%d,"
+		 "\"sf\":[%u,%u],\"mf\":[%u,%u],\"df\":[%u,%u]",
+		 VERIF_P3 (e->cache), e->hit, verif_imp_id (e->imp), verif_func_id (e->func, 0), e->op,
+		 VERIF_W2 (e->src_format), VERIF_W2 (e->mask_format), VERIF_W2 (e->dest_format));
+	verif_flags (verif_file, "sfl", e->src_flags);
+	verif_flags (verif_file, "mfl", e->mask_flags);
+	verif_flags (verif_file, "dfl", e->dest_flags);
+	fputs ("}\n", verif_file);
+    }
+    else if (event[0] == 'D' /* Dispatch */)
+    {
+	const pixman_verif_dispatch_t *e = data;
+
+	verif_left--;
+	fprintf (verif_file, "{\"e\":\"Dispatch\",\"tid\":0,\"op_in\":%d,\"op_out\":%d,\"sf\":[%u,%u],\"mf\":[%u,%u],\"df\":[%u,%u],"
+		 "\"ext\":[%d,%d,%d,%d]",
+		 e->op_in, e->op_out, VERIF_W2 (e->src_format), VERIF_W2 (e->mask_format), VERIF_W2 (e->dest_format),
+		 e->x1, e->y1, e->x2, e->y2);
+	verif_flags (verif_file, "sfl", e->src_flags);
+	verif_flags (verif_file, "mfl", e->mask_flags);
+	verif_flags (verif_file, "dfl", e->dest_flags);
+	fputs ("}\n", verif_file);
+    }
+    if (verif_left <= 0)
+	fflush (verif_file);
+}
+
+void
+_pixman_verif_install_file_sink (void)
+{
+    const char *path = getenv ("PIXMAN_VERIF_TRACE");
+    const char *max = getenv ("PIXMAN_VERIF_TRACE_MAX");
+
+    if (!path || !*path)
+	return;
+    verif_file = fopen (path, "w");
+    if (!verif_file)
+	return;
+    verif_left = max ? atol (max) : 20000;
+    _pixman_verif_sink = verif_file_sink;
+}
 #endif
 
 void
